@@ -90,7 +90,7 @@ Judge(ev) ==
                   /\ Len(ev.os) = ev.sas + ev.ali + ev.sbs, "stats.single"),
        Chk(aln => ev.os = ConsSeq(cols) /\ QualsOK(cols, ev.oq), "assemble.sequence"),
        Chk(~aln => ev.os = JoinSeq(ev.a, ev.b) /\ ev.oq = JoinQual(ev.qa, ev.qb), "join.sequence"),
-       Chk(ev.fast = 1 => /\ (left <=> sh > 0)
+       Chk(ev.fast = 1 => /\ (left => sh >= 0) /\ (~left => sh <= 0)
                           /\ ev.fc = DiagCount(ka, kb, sh), "fast.vote"),
        Chk(fullvote => sh \in BestShifts(v, la, lb, ev.rel = 1), "fast.vote"),
        Chk((ev.perfect > 0 /\ ev.fast = 0) => ev.score >= ts, "perfect.exact_score"),
